@@ -27,6 +27,8 @@ FIXED=[
  ("C18","Unquote mangles","map.go unquote","Unquote turned \"\\xff\" into U+00FF and interpreted escapes inside back-quoted strings"),
  ("C19","EBNF printing panics on anonymous struct","ebnf.go buildEBNF","Build panicked (slice bounds out of range [:1]) rendering the left-recursion error for a cycle through an anonymous struct field"),
  ("C06","Elide() of an unknown token type","parser.go Build / getElidedTypes","Build accepted Elide(\"Nope\") and every Parse*/ParseString call on the built parser then panicked in getElidedTypes"),
+ ("C06","slice of encoding.TextUnmarshaler structs","nodes.go setField","`A []T \"@Ident*\"` with T a struct implementing encoding.TextUnmarshaler builds, then every parse that captures panics in reflect.Append (value of type string is not assignable to type T); `[]*T` silently dropped every element (found through an independent reviewer's side remark, reproduced by the capture-target cases added to C06)"),
+ ("C06","slice and pointer field types the parser cannot fill","nodes.go setField / conform","captures into `[][]string`, `[]complex64`, `[]uintptr`, `[][]int` panicked in reflect.Append and `@@` into `**T` / `[]**T` panicked in reflect.Value.Convert, where the same capture into a scalar of an unsupported type is reported as an error"),
  ("C19","Parseable with a value receiver","grammar.go parseType","Build panicked (reflect: Elem of invalid type) for a field or root type that implements Parseable with a value receiver (found by the static-type cases added to C19 after an independent reviewer's remark)"),
  ("C19","modifier, capture or negation with no operand","grammar.go parseModifier/parseCapture/parseNegation","Build panicked (value \"<nil>\") on tags `@`, `?`, `!`, `~`, `\"a\" @`, `! !`, parser:\"@\""),
  ("C06","capturing an empty match into a lexer.Token","nodes.go setField","`Tok lexer.Token \"@(\\\"a\\\"?)\"` on input without the optional token: index out of range [0] in setField (witness grammar W4)"),
